@@ -433,7 +433,7 @@ fn all_libs(g: &Glyph) -> Vec<&Plist> {
     v.extend(g.anchors.iter().filter_map(|a| a.lib()));
     v.extend(g.guidelines.iter().filter_map(|a| a.lib()));
     v.extend(g.components.iter().filter_map(|a| a.lib()));
-    for c in &g.contours {
+    for c in g.contours.iter().filter(|c| !c.points.is_empty()) {
         v.extend(c.lib());
         v.extend(c.points.iter().filter_map(|p| p.lib()));
     }
